@@ -82,6 +82,29 @@ package object
 //@   pureeffect
 //@   defines err == nil ==> sigOK(req)
 
+// The tokens of a request are validated for the operation its handler serves: the session
+// verb (V2 and legacy V1) handed to the meta-header validation is the handler's own.
+//@ callrule c29_tokens_validated_for_delete in (*Server).Delete
+//@   property C29 C30
+//@   callee (*object.Server).handleRequestMetaHeader
+//@   requires [verbs_of_this_operation] a1 == v2.VerbObjectDelete && a2 == session.VerbObjectDelete
+//@ callrule c29_tokens_validated_for_head in (*Server).HeadBuffered
+//@   property C29 C30
+//@   callee (*object.Server).handleRequestMetaHeader
+//@   requires [verbs_of_this_operation] a1 == v2.VerbObjectHead && a2 == session.VerbObjectHead
+//@ callrule c29_tokens_validated_for_get in (*Server).Get
+//@   property C29 C30
+//@   callee (*object.Server).handleRequestMetaHeader
+//@   requires [verbs_of_this_operation] a1 == v2.VerbObjectGet && a2 == session.VerbObjectGet
+//@ callrule c29_tokens_validated_for_range in (*Server).GetRange
+//@   property C29 C30
+//@   callee (*object.Server).handleRequestMetaHeader
+//@   requires [verbs_of_this_operation] a1 == v2.VerbObjectRange && a2 == session.VerbObjectRange
+//@ callrule c29_tokens_validated_for_search in (*Server).SearchV2Buffered
+//@   property C29 C30
+//@   callee (*object.Server).handleRequestMetaHeader
+//@   requires [verbs_of_this_operation] a1 == v2.VerbObjectSearch && a2 == session.VerbObjectSearch
+
 // "No rule matched" on the request alone is not a verdict when the table has rules on object
 // headers: GET and HEAD then remember (recheckEACL) that the extended ACL must be evaluated
 // again on the object's header before anything of the object is sent. The storage handler is
